@@ -41,11 +41,20 @@ def addRemoveOK (r fSell fBuy : Dec) (R A n e n' e' : Nat) : Bool :=
     else true
   notBoth && gainN && gainE
 
-/-- clause 4 (ratio shifting off): backing per unit √(R·A)/P does not drop by more than dust:
-    (R' + dust)·(A' + dust)·P² ≥ R·A·P'² -/
+/-- clause 4 (ratio shifting off): the backing per unit √(R·A)/P does not drop by more than dust.  The units
+    that exist both before and after the message are min(P, P′); what they can claim of each side must not
+    drop by more than the dust of that token (depths of the dust formula are those BEFORE the message:
+    DESIGN 4/C04).
+    * P′ ≤ P (removal, swap): the remaining P′ units claimed (R·P′/P, A·P′/P) and now claim (R′, A′):
+      (R′ + dust)·(A′ + dust)·P² ≥ R·A·P′².
+    * P′ > P (addition): the P old units claimed (R, A) and now claim (R′·P/P′, A′·P/P′):
+      (R′·P + dust·P′)·(A′·P + dust·P′) ≥ R·A·P′².  (The first draft applied the dust to the new depths
+      here too, which divides it by P′/P: for an addition many times larger than the pool that demands far
+      less than one base unit of rounding from the pool's own side — see DESIGN 9.3.) -/
 def backingOK (R A P R' A' P' : Nat) : Bool :=
-  -- depths of the dust formula are those BEFORE the message (DESIGN 4/C04): the quotients inside the
-  -- withdrawal calculators are rounded at 18 decimals of the *old* depth
-  decide (R * A * (P' * P') ≤ (R' + dust R A R') * (A' + dust A R A') * (P * P))
+  if P' ≤ P then
+    decide (R * A * (P' * P') ≤ (R' + dust R A R') * (A' + dust A R A') * (P * P))
+  else
+    decide (R * A * (P' * P') ≤ (R' * P + dust R A R * P') * (A' * P + dust A R A * P'))
 
 end Sif.Spec.C04
